@@ -23,6 +23,7 @@ import (
 	_ "net/http/pprof"
 	"os"
 	"os/signal"
+	"path/filepath"
 	"runtime"
 	"runtime/debug"
 	"strconv"
@@ -68,6 +69,7 @@ import (
 	e2types "github.com/wealdtech/go-eth2-types/v2"
 	e2wtypes "github.com/wealdtech/go-eth2-wallet-types/v2"
 	majordomo "github.com/wealdtech/go-majordomo"
+	"gopkg.in/yaml.v3"
 )
 
 // ReleaseVersion is the release version for the code.
@@ -258,19 +260,7 @@ func runCommands(ctx context.Context, majordomoSvc majordomo.Service) (bool, int
 	}
 
 	if viper.GetBool("show-permissions") {
-		permissionsCfg := viper.GetStringMap("permissions")
-		permissions := make(map[string][]*checker.Permissions)
-		for client := range permissionsCfg {
-			perms := viper.GetStringMapStringSlice(fmt.Sprintf("permissions.%s", client))
-			permissions[client] = make([]*checker.Permissions, 0, len(perms))
-			for path, operations := range perms {
-				permissions[client] = append(permissions[client], &checker.Permissions{
-					Path:       path,
-					Operations: operations,
-				})
-			}
-		}
-		checker.DumpPermissions(permissions)
+		checker.DumpPermissions(configuredPermissions())
 
 		return true, 0
 	}
@@ -423,6 +413,30 @@ func startUnlocker(ctx context.Context,
 
 func startChecker(ctx context.Context, monitor metrics.Service) (checker.Service, error) {
 	// Set up the checker.
+	permissions := configuredPermissions()
+	var checkerMonitor metrics.CheckerMonitor
+	if monitor, isMonitor := monitor.(metrics.CheckerMonitor); isMonitor {
+		checkerMonitor = monitor
+	}
+
+	return staticchecker.New(ctx,
+		staticchecker.WithLogLevel(util.LogLevel("checker")),
+		staticchecker.WithMonitor(checkerMonitor),
+		staticchecker.WithPermissions(permissions),
+	)
+}
+
+// configuredPermissions obtains the client permissions from the configuration.
+// The paths of a client are regular expressions and are evaluated in order, so both their
+// spelling and their order matter; the configuration library lower-cases the keys of a
+// mapping (turning, for example, the class "\D" into "\d") and hands them over without
+// an order, so where the configuration comes from a YAML or JSON file the paths are taken
+// from the file itself.
+func configuredPermissions() map[string][]*checker.Permissions {
+	if permissions, ok := permissionsFromConfigFile(viper.ConfigFileUsed()); ok {
+		return permissions
+	}
+
 	permissionsCfg := viper.GetStringMap("permissions")
 	permissions := make(map[string][]*checker.Permissions)
 	for client := range permissionsCfg {
@@ -435,16 +449,71 @@ func startChecker(ctx context.Context, monitor metrics.Service) (checker.Service
 			})
 		}
 	}
-	var checkerMonitor metrics.CheckerMonitor
-	if monitor, isMonitor := monitor.(metrics.CheckerMonitor); isMonitor {
-		checkerMonitor = monitor
+
+	return permissions
+}
+
+// permissionsFromConfigFile reads the permissions section of a YAML or JSON configuration
+// file, keeping the paths of each client as written and in the order written.
+// Client names are lower-cased, as they are when obtained through the configuration library.
+func permissionsFromConfigFile(file string) (map[string][]*checker.Permissions, bool) {
+	switch strings.ToLower(filepath.Ext(file)) {
+	case ".yml", ".yaml", ".json":
+	default:
+		return nil, false
+	}
+	data, err := os.ReadFile(file)
+	if err != nil {
+		return nil, false
+	}
+	var document yaml.Node
+	if err := yaml.Unmarshal(data, &document); err != nil || len(document.Content) != 1 {
+		return nil, false
+	}
+	section := mappingValue(document.Content[0], "permissions")
+	if section == nil || section.Kind != yaml.MappingNode {
+		return nil, false
 	}
 
-	return staticchecker.New(ctx,
-		staticchecker.WithLogLevel(util.LogLevel("checker")),
-		staticchecker.WithMonitor(checkerMonitor),
-		staticchecker.WithPermissions(permissions),
-	)
+	permissions := make(map[string][]*checker.Permissions)
+	for i := 0; i+1 < len(section.Content); i += 2 {
+		client := strings.ToLower(section.Content[i].Value)
+		paths := section.Content[i+1]
+		if paths.Kind != yaml.MappingNode {
+			return nil, false
+		}
+		permissions[client] = make([]*checker.Permissions, 0, len(paths.Content)/2)
+		for j := 0; j+1 < len(paths.Content); j += 2 {
+			var operations []string
+			if paths.Content[j+1].Kind == yaml.ScalarNode {
+				// A single string stands for its space-separated words, as with the configuration library.
+				operations = strings.Fields(paths.Content[j+1].Value)
+			} else if err := paths.Content[j+1].Decode(&operations); err != nil {
+				return nil, false
+			}
+			permissions[client] = append(permissions[client], &checker.Permissions{
+				Path:       paths.Content[j].Value,
+				Operations: operations,
+			})
+		}
+	}
+
+	return permissions, true
+}
+
+// mappingValue returns the value of a key of a YAML mapping, or nil.
+// Keys are compared without regard to case, as the configuration library does.
+func mappingValue(node *yaml.Node, key string) *yaml.Node {
+	if node == nil || node.Kind != yaml.MappingNode {
+		return nil
+	}
+	for i := 0; i+1 < len(node.Content); i += 2 {
+		if strings.EqualFold(node.Content[i].Value, key) {
+			return node.Content[i+1]
+		}
+	}
+
+	return nil
 }
 
 func startFetcher(ctx context.Context, stores []e2wtypes.Store, monitor metrics.Service) (fetcher.Service, error) {
